@@ -47,6 +47,7 @@ TIERS = {
 }
 
 RUN_TIMEOUT_S = 300  # a single simulated run must never take this long
+RECYCLE_RSS_KB = int(os.environ.get("VERIF_RECYCLE_KB", "1500000"))  # a shard above this resident size is replaced by a fresh interpreter
 
 
 def repo_root():
@@ -89,10 +90,19 @@ def worker(args):
     shapes = set()
     t0 = time.time()
     seen_classes = {}
+    import resource
+
+    out["next"] = None
     try:
-        i = args.shard
+        i = args.start if args.start is not None else args.shard
         while i < args.max_runs:
             if time.time() - t0 > args.budget and out["runs"] > 0:
+                break
+            if out["runs"] and out["runs"] % 50 == 0 and \
+                    resource.getrusage(resource.RUSAGE_SELF).ru_maxrss > RECYCLE_RSS_KB:
+                # cogent3 keeps every unpickled MolType alive: a long-lived shard grows
+                # by ~0.5 MB per parallel run.  Hand over to a fresh interpreter.
+                out["next"] = i
                 break
             faulthandler.dump_traceback_later(RUN_TIMEOUT_S, exit=True)
             rng = core.make_rng(args.seed, args.engine, i)
@@ -183,41 +193,53 @@ def run_engine(prop, engine_name, tier, seed, nshards, overrides):
         budget = overrides["budget"]
     scratch = os.path.join(core_scratch(), f"verif-run-{simos._real_getpid()}-{engine_name}")
     os.makedirs(scratch, exist_ok=True)
-    procs = []
-    for s in range(nshards):
-        out = os.path.join(scratch, f"shard{s}.json")
-        cmd = [sys.executable, os.path.abspath(__file__), "--worker", "--engine", engine_name,
-               "--tier", tier, "--seed", str(seed), "--shard", str(s), "--nshards", str(nshards),
-               "--max-runs", str(max_runs), "--budget", str(budget), "--out", out]
-        if overrides.get("digests"):
-            cmd += ["--digests", "1"]
-        if overrides.get("digest_upto"):
-            cmd += ["--digest-upto", str(overrides["digest_upto"])]
-        log = open(os.path.join(scratch, f"shard{s}.log"), "w")
-        hs = overrides.get("hashseed")
-        env = child_env((s % 4 if hs is None else hs) + overrides.get("hashseed_offset", 0))
-        env["VERIF_CHILD"] = "1"
-        procs.append((s, out, log, subprocess.Popen(cmd, env=env, stdout=log, stderr=subprocess.STDOUT)))
+    t_start = time.time()
     hard = budget * 4 + 600
-    t0 = time.time()
     results, errors = [], []
-    for s, out, log, p in procs:
-        try:
-            rc = p.wait(timeout=max(5, hard - (time.time() - t0)))
-        except subprocess.TimeoutExpired:
-            p.kill()
-            rc = -9
-        log.close()
-        data = None
-        if os.path.exists(out):
-            with open(out) as f:
-                data = json.load(f)
-        if rc != 0 or data is None or data.get("error"):
-            with open(log.name) as f:
-                tail = f.read()[-3000:]
-            errors.append(f"shard {s} rc={rc}: {(data or {}).get('error') or tail}")
-        if data is not None:
-            results.append(data)
+    todo = [(s, None) for s in range(nshards)]  # (shard, start index or None)
+    generation = 0
+    while todo:
+        remaining = budget - (time.time() - t_start)
+        if generation and remaining <= 1:
+            break
+        procs = []
+        for s, start in todo:
+            out = os.path.join(scratch, f"shard{s}-g{generation}.json")
+            cmd = [sys.executable, os.path.abspath(__file__), "--worker", "--engine", engine_name,
+                   "--tier", tier, "--seed", str(seed), "--shard", str(s), "--nshards", str(nshards),
+                   "--max-runs", str(max_runs), "--budget", str(max(1, remaining)), "--out", out]
+            if start is not None:
+                cmd += ["--start", str(start)]
+            if overrides.get("digests"):
+                cmd += ["--digests", "1"]
+            if overrides.get("digest_upto"):
+                cmd += ["--digest-upto", str(overrides["digest_upto"])]
+            log = open(os.path.join(scratch, f"shard{s}-g{generation}.log"), "w")
+            hs = overrides.get("hashseed")
+            env = child_env((s % 4 if hs is None else hs) + overrides.get("hashseed_offset", 0))
+            env["VERIF_CHILD"] = "1"
+            procs.append((s, out, log, subprocess.Popen(cmd, env=env, stdout=log, stderr=subprocess.STDOUT)))
+        todo = []
+        for s, out, log, p in procs:
+            try:
+                rc = p.wait(timeout=max(5, hard - (time.time() - t_start)))
+            except subprocess.TimeoutExpired:
+                p.kill()
+                rc = -9
+            log.close()
+            data = None
+            if os.path.exists(out):
+                with open(out) as f:
+                    data = json.load(f)
+            if rc != 0 or data is None or data.get("error"):
+                with open(log.name) as f:
+                    tail = f.read()[-3000:]
+                errors.append(f"shard {s} rc={rc}: {(data or {}).get('error') or tail}")
+            if data is not None:
+                results.append(data)
+                if data.get("next") is not None:
+                    todo.append((s, data["next"]))
+        generation += 1
     import shutil
 
     shutil.rmtree(scratch, ignore_errors=True)
@@ -233,6 +255,8 @@ def merge(results):
         for key in ("faults", "probes", "configs"):
             for k, v in r[key].items():
                 agg[key][k] = agg[key].get(k, 0) + v
+        if r.get("next") is not None:
+            agg["probes"]["shard-interpreter-recycled"] = agg["probes"].get("shard-interpreter-recycled", 0) + 1
         agg["shapes"].update(r["shapes"])
         agg["samples"].extend(r["samples"])
         agg["digests"].update(r.get("digests", {}))
@@ -507,6 +531,7 @@ def main():
     ap.add_argument("--max-runs", type=int, default=1)
     ap.add_argument("--out")
     ap.add_argument("--digest-upto", type=int, default=0)
+    ap.add_argument("--start", type=int, default=None)
     ap.add_argument("--cross", help="replay helper: print the digest of the plan in this replay file")
     args = ap.parse_args()
     if args.worker:
